@@ -33,6 +33,7 @@ type reconnectState struct {
 	nextDelay   time.Duration
 	lastAttempt time.Time
 	timer       *time.Timer
+	timerGen    uint64 // generation of the timer that may start the next attempt
 }
 
 // Reconnector handles automatic reconnection with exponential backoff.
@@ -44,6 +45,7 @@ type Reconnector struct {
 	states map[string]*reconnectState
 	closed bool
 	paused bool
+	gen    uint64 // last timer generation handed out
 }
 
 // NewReconnector creates a new reconnector.
@@ -72,31 +74,42 @@ func (r *Reconnector) Schedule(addr string) {
 		r.states[addr] = state
 	}
 
-	// Cancel any existing timer
-	if state.timer != nil {
-		state.timer.Stop()
-	}
-
 	// Check max attempts
 	if r.cfg.MaxAttempts > 0 && state.attempts >= r.cfg.MaxAttempts {
-		delete(r.states, addr)
+		r.dropState(addr, state)
 		return
 	}
 
-	// Calculate delay with jitter
-	delay := r.addJitter(state.nextDelay)
+	// Calculate delay with jitter and schedule reconnect
+	r.armTimer(addr, state, r.addJitter(state.nextDelay))
+}
 
-	// Schedule reconnect
+// armTimer (re)starts the single retry timer of state. Any previously armed
+// timer is superseded: it is stopped, and if it has already fired but has not
+// yet started its attempt, its stale generation makes it a no-op.
+// The caller must hold r.mu.
+func (r *Reconnector) armTimer(addr string, state *reconnectState, delay time.Duration) {
+	if state.timer != nil {
+		state.timer.Stop()
+	}
+	r.gen++
+	gen := r.gen
+	state.timerGen = gen
 	state.timer = time.AfterFunc(delay, func() {
-		r.attemptReconnect(addr)
+		r.attemptReconnect(addr, gen)
 	})
 }
 
-// attemptReconnect attempts to reconnect to the given address.
-func (r *Reconnector) attemptReconnect(addr string) {
+// attemptReconnect attempts to reconnect to the given address. gen identifies
+// the timer that fired.
+func (r *Reconnector) attemptReconnect(addr string, gen uint64) {
 	r.mu.Lock()
 	state, exists := r.states[addr]
-	if !exists || r.closed {
+	// Do not start an attempt if the timer was superseded (re-armed, or its
+	// state was cancelled/reset and re-created), or if it had already fired
+	// when Pause() stopped the timers. When paused the state is kept so that
+	// Schedule() after Resume() continues the backoff.
+	if !exists || r.closed || r.paused || state.timerGen != gen {
 		r.mu.Unlock()
 		return
 	}
@@ -122,21 +135,41 @@ func (r *Reconnector) attemptReconnect(addr string) {
 		return
 	}
 
+	// Cancel/Reset/ResetAll (possibly followed by a new Schedule) ran while
+	// the attempt was in progress: this attempt no longer owns the entry.
+	if r.states[addr] != state {
+		return
+	}
+
 	if err != nil {
 		// Reschedule if still within limits
 		if r.cfg.MaxAttempts == 0 || state.attempts < r.cfg.MaxAttempts {
-			delay := r.addJitter(state.nextDelay)
-			state.timer = time.AfterFunc(delay, func() {
-				r.attemptReconnect(addr)
-			})
+			if r.paused {
+				// Paused while the attempt was running: keep the backoff
+				// state but do not retry until Resume() and Schedule().
+				return
+			}
+			// armTimer supersedes a timer that Schedule() may have armed
+			// while the attempt was running (the peer manager does so on
+			// every failed Connect), so only one timer is ever live.
+			r.armTimer(addr, state, r.addJitter(state.nextDelay))
 		} else {
 			// Max attempts reached, clean up
-			delete(r.states, addr)
+			r.dropState(addr, state)
 		}
 	} else {
 		// Success! Reset state
-		delete(r.states, addr)
+		r.dropState(addr, state)
 	}
+}
+
+// dropState removes state, stopping a timer that Schedule() may have armed
+// while an attempt was running. The caller must hold r.mu.
+func (r *Reconnector) dropState(addr string, state *reconnectState) {
+	if state.timer != nil {
+		state.timer.Stop()
+	}
+	delete(r.states, addr)
 }
 
 // addJitter adds random jitter to a duration.
